@@ -24,7 +24,7 @@ MANIFEST = {
     'note': ('trusted: Coq kernel, harness, the AST extractor generate() of this module (fail closed), the oracle contract "np.argsort(kind=mergesort/stable) and each np.lexsort pass return the stable sorted arrangement under '
              'val_leb" (validated by the oracle strata each run, exhaustive for small lists). Modelled, not proved about the code: that index[order] / blocks.iloc[order] take whole rows (C03/C04 territory; observed through the full result frame), '
              'label->position resolution of the sort_values label argument, dtype consolidation of a row (axis 0) which is assumed order-preserving (exact for the generated values). '
-             'Known findings (model follows the code, spec does not): Series.sort_values does not validate the key result length; 2-D one-column key arrays in sort_index_for_order; non-tree-ordered results on hierarchical axes.'),
+             'Known findings (model follows the code, spec does not): 2-D one-column key arrays in sort_index_for_order; non-tree-ordered results on hierarchical axes. Repaired (regression case kept): Series.sort_values did not validate the key result length (fix 2c1ccba).'),
     'technique': 'uniqueness of the stable sorted arrangement + LSD theorem + refinement of a source-parameterised implementation model; differential correspondence by vm_compute',
 }
 PROPERTY_FILES = ['Properties/C12.v']
@@ -42,8 +42,9 @@ ASSUMPTIONS = [
     'casting a row of mixed int/float/bool columns to its common dtype preserves the order of the generated values (small integers, dyadic floats)',
     'Python int = Z',
 ]
-TRUSTED = ['tools/sfv/props/c12.py generate(): AST extraction of range directions, lexsort threshold, order[::-1] and kind defaults (fails closed on any other shape)']
+TRUSTED = ['tools/sfv/props/c12.py generate(): AST extraction of range directions, lexsort threshold, order[::-1], the Series.sort_values key-length check and kind defaults (fails closed on any other shape)']
 EXHAUSTIVE = {'quick': False, 'thorough': False}
+GENERATED_FILES = ['Gen/Gen_c12.v']      # overwritten with a broken stub by targets.py when generate() raises
 
 P = 'code_params'
 
@@ -151,18 +152,6 @@ def _kw(call, name):
 
 
 def generate(repo):
-    try:
-        return _generate(repo)
-    except Exception as e:  # noqa
-        # fail closed: a stale Gen/Gen_c12.v from an earlier run must not survive a failed extraction
-        from ..core import COQ, write_if_changed
-        write_if_changed(os.path.join(COQ, 'Gen', 'Gen_c12.v'),
-                         '(* GENERATED by tools/sfv/props/c12.py generate(): extraction FAILED, nothing is defined here.\n'
-                         f'   {type(e).__name__}: {str(e)[:300].replace("*)", "* )")} *)\n')
-        raise
-
-
-def _generate(repo):
     def parse(rel):
         with open(os.path.join(repo, rel)) as f:
             return ast.parse(f.read())
@@ -214,6 +203,15 @@ def _generate(repo):
     ssv_argsort = _calls(ssv, 'np.argsort')
     if len(ssv_argsort) != 1:
         raise ValueError('Series.sort_values: np.argsort call not found')
+    # the key result's length is validated: `if key: ... if len(cfs_values) != len(self.values): raise RuntimeError(..)`
+    ssv_len_check = 'false'
+    for n in ssv.body:
+        if isinstance(n, ast.If) and ast.unparse(n.test) == 'key':
+            for m in n.body:
+                if (isinstance(m, ast.If) and ast.unparse(m.test) in ('len(cfs_values) != len(self.values)', 'len(cfs_values) != len(self)', 'len(cfs_values) != len(self._index)')
+                        and len(m.body) == 1 and isinstance(m.body[0], ast.Raise) and not m.orelse
+                        and isinstance(m.body[0].exc, ast.Call) and ast.unparse(m.body[0].exc.func) == 'RuntimeError'):
+                    ssv_len_check = 'true'
 
     # effective default kind of every public sort method
     def default_expr(fn):
@@ -249,9 +247,9 @@ def _generate(repo):
         'Local Open Scope string_scope.',
         '',
         '(* loop directions of the values_for_lex comprehensions, the `cfs_depth > k` test and the',
-        '   `if not ascending: order = order[::-1]` statements *)',
+        '   `if not ascending: order = order[::-1]` statements, presence of the key-length check in Series.sort_values *)',
         'Definition code_params : sort_params :=',
-        f'  mk_sort_params {sifo_arr} {sifo_idx} {lit.z(thr)} {sifo_desc} {fsv0_arr} {fsv0_frame} {fsv1_arr} {fsv1_frame} {fsv_desc} {ssv_desc}.',
+        f'  mk_sort_params {sifo_arr} {sifo_idx} {lit.z(thr)} {sifo_desc} {fsv0_arr} {fsv0_frame} {fsv1_arr} {fsv1_frame} {fsv_desc} {ssv_desc} {ssv_len_check}.',
         '',
         '(* effective default sort kind reaching np.argsort for every public sort method *)',
         'Definition sort_kind_defaults : list (string * pv) :=',
@@ -1042,8 +1040,6 @@ def malformed_cases(ctx):
                 obs, _ = run_obs(lambda: sr.sort_values(ascending=asc, key=kfn), lit.oseries)
                 mfun = 'M_series_sort_values'
                 tags = {'op': 'Series.sort_values', 'malformed': how}
-                if how == 'short':
-                    tags['finding'] = 'C12-series-key-short'
             else:
                 items = label_items(labels, 1)
                 allnum = all(not isinstance(t[0], str) for t in items)
@@ -1100,13 +1096,14 @@ def malformed_cases(ctx):
 def witness_cases(ctx):
     import static_frame as sf
     rng = ctx.rng
-    # C12-series-key-short
+    # regression (former finding C12-series-key-short, repaired by /repo commit 2c1ccba): a key result shorter than the
+    # Series must raise RuntimeError; a silently shortened result is a violation again
     sr = sf.Series(np.array([3, 1, 2, 1]), index=('a', 'b', 'c', 'd'), name='n')
     kfn = KeyFn(kf_ident, 'arr1', mangle=lambda r: r[:2])
     obs, _ = run_obs(lambda: sr.sort_values(key=kfn), lit.oseries)
-    yield Case('witness:series-key-short', {'call': 'sf.Series((3,1,2,1), index=tuple("abcd"), name="n").sort_values(key=lambda s: s.values[:2])', 'observed': obs},
+    yield Case('regression:series-key-short', {'call': 'sf.Series((3,1,2,1), index=tuple("abcd"), name="n").sort_values(key=lambda s: s.values[:2])', 'observed': obs},
                m=f'oseries_res_eqb (M_series_sort_values {P} {sseries_lit(sr, 1)} {opt(cfs_lit(kfn.returned))} true) {obs}',
-               s=f'@res_is_err oseries {obs}', tags={'op': 'Series.sort_values', 'malformed': 'short', 'finding': 'C12-series-key-short'})
+               s=f'oseries_res_eqb (Err "RuntimeError") {obs}', tags={'op': 'Series.sort_values', 'malformed': 'short', 'regression': 'series-key-short'})
     # C12-key-2d-one-column
     sr2 = sf.Series(np.array([3, 1, 2]), index=('a', 'b', 'c'))
     kfn = KeyFn(lambda t: (-ord(t[0]),), 'arr2')
